@@ -30,5 +30,6 @@ func main() {
 	write("GenBodies.v", genBodies(*repo))
 	write("GenSkeletons.v", genSkeletons(*repo))
 	write("GenTables.v", genTables(*repo))
+	write("GenInventory.v", genInventory(*repo))
 	fmt.Println("srcextract: ok")
 }
